@@ -29,11 +29,19 @@ def job(pkg, entry, params, solver="z3", **kw):
 
 
 # ---------------------------------------------------------------------------------------------
+def sa_tiers(t, kind):
+    """the thorough SA shape space is split over five jobs (first transform type fixed per job)"""
+    if t >= 2 and kind == 33:
+        return [t + 10 * k for k in range(1, 6)]
+    return [t]
+
+
 def c03_jobs(tier):
     t = 1 if tier == "quick" else 2
     jobs = []
     for k in PAYLOAD_KINDS:
-        jobs.append(job(MSG, "HCodecRoundTrip", [t, k, 0]))
+        for tt in sa_tiers(t, k):
+            jobs.append(job(MSG, "HCodecRoundTrip", [tt, k, 0], wall_ms=1200000))
     jobs.append(job(MSG, "HCodecRoundTrip", [0, 0]))
     # pairs at minimal size: every kind first / last
     pairs = [(a, b) for a in PAYLOAD_KINDS for b in PAYLOAD_KINDS] if tier == "thorough" else \
@@ -144,12 +152,13 @@ def c05_jobs(tier):
     t = 1 if tier == "quick" else 2
     jobs = []
     for k in PAYLOAD_KINDS:
-        jobs.append(job(MSG, "HStrictParseOfEncode", [t, k, 0]))
-        jobs.append(job(MSG, "HRefLemma", [t, k, 0]))
-        for perm in ((0, 1, 2) if k == 33 else (0,)):
-            jobs.append(job(MSG, "HDecodeLiberal", [t, 1, perm, k, 0]))
-            if tier == "thorough":
-                jobs.append(job(MSG, "HDecodeLiberal", [t, 0, perm, k, 0]))
+        for tt in sa_tiers(t, k):
+            jobs.append(job(MSG, "HStrictParseOfEncode", [tt, k, 0], wall_ms=1200000))
+            jobs.append(job(MSG, "HRefLemma", [tt, k, 0], wall_ms=1200000))
+            for perm in ((0, 1, 2) if k == 33 else (0,)):
+                jobs.append(job(MSG, "HDecodeLiberal", [tt, 1, perm, k, 0], wall_ms=1200000))
+                if tier == "thorough":
+                    jobs.append(job(MSG, "HDecodeLiberal", [tt, 0, perm, k, 0], wall_ms=1200000))
     pairs = [(PAYLOAD_KINDS[i], PAYLOAD_KINDS[(i + 2) % 15]) for i in range(15)]
     if tier == "thorough":
         pairs = [(a, b) for a in PAYLOAD_KINDS for b in PAYLOAD_KINDS]
@@ -403,7 +412,8 @@ def c12_jobs(tier):
         jobs.append(job(MSG, "HStableMessage", [n], **A))
     t = 1 if q else 2
     for k in PAYLOAD_KINDS:
-        jobs.append(job(MSG, "HCanonicalIdentity", [t, k, 0]))
+        for tt in sa_tiers(t, k):
+            jobs.append(job(MSG, "HCanonicalIdentity", [tt, k, 0], wall_ms=1200000))
     for i in range(15):
         jobs.append(job(MSG, "HCanonicalIdentity", [0, PAYLOAD_KINDS[i], PAYLOAD_KINDS[(i + 6) % 15], 0]))
     jobs.append(job(MSG, "HCanonicalIdentity", [0, 0]))
